@@ -316,9 +316,9 @@ def run_job(job: dict) -> dict:
         body = bytes.fromhex(st['body'])
         try:
             if st.get('entry', 'message') == 'collection':
-                obj = UpdateCollection.unpack_message(body, neg)
+                obj = UpdateCollection.unpack_message(memoryview(bytearray(body)), neg)  # writable, as the receive buffer of the real reader is
             else:
-                obj = Message.unpack(st['t'], body, neg)
+                obj = Message.unpack(st['t'], memoryview(bytearray(body)), neg)
             r = render(obj, n, neg, int(st.get('ord', 0)))
             objs.append((obj, n, neg))
         except Exception as e:  # noqa: BLE001  (whatever escapes is the result, as an enum)
